@@ -22,6 +22,9 @@ class OffsetClock:
         self.off += _dt.timedelta(seconds=seconds)
 
 
+HANG_SECONDS = 8.0      # a call that does not return (endless loop) is observed as a hang, like a self-deadlock
+
+
 class Adapter:
     def __init__(self, cfg):
         base.use_repo()
@@ -105,6 +108,8 @@ class Adapter:
         del w["toxic"][:]
         obs = {"hang": False, "raised": False, "ret": 0, "nerr": 0}
         before = lys.get_statistics()["total_ingested"]
+        dl = shims.deadline(HANG_SECONDS)
+        dl.__enter__()
         try:
             if op == "ingest":
                 k = w["n"] + 1
@@ -142,10 +147,12 @@ class Adapter:
             elif op == "advance":
                 self.clock.advance(3600)
                 w["now"] += 1
-        except shims.SelfDeadlock:
+        except (shims.SelfDeadlock, shims.Hung):
             obs["hang"] = True
         except Exception as ex:
             obs["raised"], obs["exc"] = True, type(ex).__name__
+        finally:
+            dl.__exit__()
         if op == "ingest" and lys.get_statistics()["total_ingested"] == before + 1:
             w["n"] += 1
             w["q"].append((w["n"], a["t"], w["now"]))
@@ -212,7 +219,7 @@ def simulate_cfg(args):
     c, num, depth, seed_ = args
     beh = conform.simulate("Lysosome", constants(c, 12), num, depth, seed_, constraints=["TimeBound"])
     ad = Adapter(c)
-    chains, mism = [], 0
+    chains, mism, hangs = [], 0, 0
     for states in beh:
         w = ad.make()
         chain = []
@@ -224,7 +231,12 @@ def simulate_cfg(args):
             if post["qsize"] != len(st["queue"]) or post["digested"] != st["digested"] or obs["calls"] != [list(x) for x in o["calls"]] or obs["toxic"] != list(o["toxic"]):
                 mism += 1
             chain.append({"act": a, "obs": obs, "post": post})
+            if obs.get("hang"):
+                hangs += 1
+                break                      # the object is unusable after a call that never returned
         chains.append(chain)
+        if hangs >= explore.MAX_HANGS:
+            break
     tree = explore.chains_to_tree(chains)
     tree["header"]["root"] = ad.project(ad.make())
     r, pf, dr = conform.walk_tree("Trace_Lysosome", tree, constants(c), "c13sim")
